@@ -17,7 +17,7 @@ PROPERTY = "C08"
 LEVEL = "fault_enumeration"
 RULE = (
     "Generated block programs: an underlying iterator (async generator / class with aclose / plain-awaitable "
-    "class / class with asend+athrow / a list) of 0-8 items is opened with scoped_iter, nested up to depth 3 "
+    "class / class with asend+athrow / a list / a one-shot sync iterator / a __getitem__ sequence) of 0-8 items is opened with scoped_iter, nested up to depth 3 "
     "(inner scopes over the outer handle, generated entry/exit positions); inside, up to 20 operations from "
     "{next / asend on the handle of any open level, next / asend on a handle whose scope ended, aclose that handle, hand it to one of 26 tools taking j items and "
     "closing or abandoning the tool, next on a handle whose scope already ended}. Exit mode: fall-through, or an "
@@ -56,7 +56,7 @@ def programs(draw, tier):
     )
     ops = [list(o) for o in draw(st.lists(op, max_size=20))]
     raise_at = draw(st.one_of(st.none(), st.none(), st.integers(0, 20)))
-    return {"items": items, "kind": draw(st.sampled_from(["agen", "aclass", "aplain", "send", "list"])),
+    return {"items": items, "kind": draw(st.sampled_from(["agen", "aclass", "aplain", "send", "list", "iter", "seq"])),
             "susp": draw(st.integers(0, 1)), "ops": ops, "raise_at": raise_at,
             "mode": draw(st.sampled_from(["hooks", "bare"]))}
 
@@ -75,7 +75,7 @@ def run_program(case, cancel_at=None):
     else:
         src = make_source(ctx, "u", items, spec, "a")
     underlying = src.obj
-    observable = kind != "list"
+    observable = kind not in ("list", "iter", "seq")  # sync iterables are wrapped by the library itself
     model = iter(list(items))
     problems = []
     planned = Fault("planned-block-exception")
